@@ -1785,6 +1785,10 @@ def assign(df, *pairs):
         for name, val in pairs.items():
             if isinstance(val, Callable):
                 val = val(df)
+            if len(df) == 0 and is_series_like(val) and len(val):
+                # pandas adopts the index of a Series that is assigned to an *empty*
+                # frame; an empty partition must stay empty
+                val = val.reindex(df.index)
             df[name] = val
     return df
 
